@@ -412,3 +412,70 @@ macro_rules! true7 {
         $m!($($a)* ());
     };
 }
+
+// ------------------------------------------------------------------ history family
+
+/// Three Rust types that three different runtimes register under the same
+/// Roto name `Thing`.
+#[derive(Clone, Debug, PartialEq)]
+pub struct Small(pub u8);
+#[derive(Clone, Debug, PartialEq)]
+pub struct Big(pub [u64; 4]);
+#[derive(Clone, Debug, PartialEq)]
+pub struct Mid(pub u32);
+
+macro_rules! reg {
+    ($t:ty, $k:literal, $v:expr) => {
+        impl Desc for Val<$t> {
+            fn desc() -> T {
+                T::Reg($k)
+            }
+        }
+        impl Mk for Val<$t> {
+            fn mk() -> Self {
+                Val($v)
+            }
+        }
+    };
+}
+reg!(Small, 0, Small(7));
+reg!(Big, 1, Big([1, 2, 3, 4]));
+reg!(Mid, 2, Mid(7));
+
+/// The k-th runtime: `Thing` is `Val<Small>`, `Val<Big>` or `Val<Mid>`;
+/// `mk_thing()` makes one.
+pub fn thing_runtime(k: u8) -> roto::Runtime<NoCtx> {
+    use roto::{Runtime, library};
+    match k {
+        0 => Runtime::from_lib(library! {
+            #[clone] type Thing = Val<Small>;
+            fn mk_thing() -> Val<Small> { Val(Small(7)) }
+        }),
+        1 => Runtime::from_lib(library! {
+            #[clone] type Thing = Val<Big>;
+            fn mk_thing() -> Val<Big> { Val(Big([1, 2, 3, 4])) }
+        }),
+        _ => Runtime::from_lib(library! {
+            #[clone] type Thing = Val<Mid>;
+            fn mk_thing() -> Val<Mid> { Val(Mid(7)) }
+        }),
+    }
+    .expect("runtime registers")
+}
+
+/// call `$m!(args.. X)` for the 19 types of the history family
+#[macro_export]
+macro_rules! hist19 {
+    ($m:ident ! ( $($a:tt)* )) => {
+        $crate::num10!($m!($($a)*));
+        $m!($($a)* bool);
+        $m!($($a)* roto::RotoString);
+        $m!($($a)* Option<u8>);
+        $m!($($a)* Option<u64>);
+        $m!($($a)* roto::List<u8>);
+        $m!($($a)* roto::List<u64>);
+        $m!($($a)* roto::Val<$crate::probe::Small>);
+        $m!($($a)* roto::Val<$crate::probe::Big>);
+        $m!($($a)* roto::Val<$crate::probe::Mid>);
+    };
+}
